@@ -292,7 +292,8 @@ def nrunOk (n : NState) : List NOp → Prop
   | [] => True
   | op :: ops => NOp.ok n op ∧ nrunOk (nstep n op).1 ops
 
-/-- Every node-level event keeps `Inv` — in every power state. -/
+/-- Every node-level event keeps `Inv` — in every power state. (Unconditional form: `C15_node_inv2_step` in
+`Props/C15Disjoint.lean`, where the `move_file` side condition is proved from cross-folder disjointness.) -/
 theorem C15_node_inv_step {n : NState} (h : Inv n.x.s) (op : NOp) (hok : NOp.ok n op) : Inv (nstep n op).1.x.s := by
   cases op with
   | power b => exact h
